@@ -72,7 +72,9 @@ func (s *set[ElementType]) DeleteAll(other ReadableSet[ElementType]) (removedEle
 
 	removedElements = NewSet[ElementType]()
 	_ = other.ForEach(func(element ElementType) (err error) {
-		if s.Delete(element) {
+		// the read lock is already held: going through s.Delete would acquire it a second time, which deadlocks as soon
+		// as an Apply/Compute/Replace is waiting for the write lock in between
+		if s.OrderedMap.Delete(element) {
 			removedElements.Add(element)
 		}
 
